@@ -3,10 +3,10 @@ import itertools
 from ..driver import Part
 from .. import common as C
 
-COQ_FILES = ["Registry.v", "RegistryProofs.v", "RegistryExec.v", "RegistrySound.v", "RespawnExec.v", "PropsRegistry.v"]
+COQ_FILES = ["Registry.v", "RegistryProofs.v", "RegistryExec.v", "RegistrySound.v", "RespawnExec.v", "RespawnSound.v", "PropsRegistry.v"]
 THEOREMS = ["C10_unique_live", "C10_getpid_iff_registered", "C10_one_winner", "C10_one_winner_at_the_end",
             "C10_duplicate_is_noop", "C10_duplicate_child_is_noop", "C10_respawn_after_stop",
-            "C10_respawn_after_remove_concurrent", "C10_oracle_holds_of_model"]
+            "C10_respawn_after_remove_concurrent", "C10_oracle_holds_of_model", "C10_nonoverlapping_runs_are_sequential", "C10_sequential_histories_are_nonoverlapping_runs", "C10_duplicate_is_noop_at_lock_level", "C10_respawn_oracle_holds_of_model"]
 RULE = ("(sched) configurations of 2-5 client goroutines on the real actor/registry.go (built with `sync` rewritten to the "
         "yielding shim: every RWMutex acquisition is a scheduling point, proc.Start() of the recording Processer is one more): "
         "concurrent adds of one or several ids, stoppers (the registered actor handles Stopped, then Registry.Remove), lookups "
